@@ -869,6 +869,11 @@ class Interp:
         raise AnalysisError(f'{fr.mod.where(target)}: unsupported address-of `{ast.unparse(target)[:60]}`')
 
     def binop(self, op, a, b, e=None, fr=None):
+        if (a is None or b is None) and not isinstance(a, (str, list, tuple)) and not isinstance(b, (str, list, tuple)):
+            # Python: unsupported operand type(s) for NoneType
+            node = ast.Raise(exc=ast.Name(id='TypeError', ctx=ast.Load()), cause=None)
+            if e is not None: ast.copy_location(node, e)
+            raise RaiseSignal(node, f'TypeError: unsupported operand type(s) for {type(op).__name__}: {"NoneType" if a is None else type(a).__name__} and {"NoneType" if b is None else type(b).__name__}')
         if isinstance(a, ArrBox) or isinstance(b, ArrBox):
             r_ = self.binop(op, unbox(a), unbox(b), e, fr)
             return ArrBox(r_) if isinstance(r_, (Node, int, Fraction)) and not isinstance(r_, bool) else r_
